@@ -21,6 +21,7 @@ type SchedPoint struct {
 	Chosen              int  // index into the canonical order
 	Thread              int  // id of the chosen thread
 	Label               string
+	Key                 string // global state key before the decision (pruned exploration only)
 }
 
 type sthread struct {
@@ -28,6 +29,7 @@ type sthread struct {
 	name    string
 	root    string      // name of the client this thread belongs to (itself, or the spawning client)
 	wait    func() bool // when set, the thread is only enabled once wait() is true
+	hist    uint64      // hash of everything the environment has answered this thread so far
 	resume  chan struct{}
 	done    bool
 	started bool
@@ -56,6 +58,10 @@ type Sched struct {
 	held    map[interface{}]*sthread
 	inside  map[interface{}]map[*sthread]cellAccess
 
+	// KeyFn (optional) digests the shared world; together with every thread's position and
+	// answer history it forms the global state key used by the pruned exploration.
+	KeyFn func() string
+
 	Points   []SchedPoint
 	Races    []RaceReport
 	Deadlock string
@@ -81,6 +87,40 @@ func (s *Sched) CurName() string {
 		return ""
 	}
 	return s.cur.name
+}
+
+// Note folds an environment answer (what a seam returned to the running thread) into that
+// thread's history hash: a thread is a deterministic function of the answers it has seen.
+func (s *Sched) Note(answer string) {
+	if s.cur == nil {
+		return
+	}
+	h := s.cur.hist
+	if h == 0 {
+		h = 1469598103934665603
+	}
+	for i := 0; i < len(answer); i++ {
+		h ^= uint64(answer[i])
+		h *= 1099511628211
+	}
+	h ^= 0xff
+	h *= 1099511628211
+	s.cur.hist = h
+}
+
+func (s *Sched) stateKey() string {
+	if s.KeyFn == nil {
+		return ""
+	}
+	var sb strings.Builder
+	sb.WriteString(s.KeyFn())
+	for _, t := range s.threads {
+		fmt.Fprintf(&sb, "|%s:%x:%s:%v:%v", t.name, t.hist, t.label, t.done, t.blocked != nil)
+	}
+	for cell, in := range s.inside {
+		fmt.Fprintf(&sb, "|in:%T:%d", cell, len(in))
+	}
+	return sb.String()
 }
 
 // CurRoot returns the name of the client the running thread belongs to.
@@ -123,7 +163,12 @@ func (s *Sched) point(label string) {
 // RunSchedule executes the client bodies under the choice prefix; beyond the
 // prefix the default choice (0: keep running the current thread) is taken.
 func RunSchedule(names []string, bodies []func(s *Sched), prefix []int) *Sched {
-	s := &Sched{events: make(chan sevent), held: map[interface{}]*sthread{}, inside: map[interface{}]map[*sthread]cellAccess{}}
+	return RunScheduleKeyed(names, bodies, prefix, nil)
+}
+
+// RunScheduleKeyed is RunSchedule with a world digest function for state keys.
+func RunScheduleKeyed(names []string, bodies []func(s *Sched), prefix []int, keyFn func() string) *Sched {
+	s := &Sched{KeyFn: keyFn, events: make(chan sevent), held: map[interface{}]*sthread{}, inside: map[interface{}]map[*sthread]cellAccess{}}
 	vsched.Install(&vsched.Hooks{
 		Spawn: func(f func()) {
 			parent := s.cur
@@ -206,7 +251,7 @@ func RunSchedule(names []string, bodies []func(s *Sched), prefix []int) *Sched {
 				}
 			}
 			runEnabled := running != nil && len(enabled) > 0 && enabled[0] == running
-			s.Points = append(s.Points, SchedPoint{Enabled: len(enabled), RunningStillEnabled: runEnabled, Chosen: choice, Thread: enabled[choice].id, Label: enabled[choice].label})
+			s.Points = append(s.Points, SchedPoint{Enabled: len(enabled), RunningStillEnabled: runEnabled, Chosen: choice, Thread: enabled[choice].id, Label: enabled[choice].label, Key: s.stateKey()})
 			step++
 		}
 		t := enabled[choice]
@@ -269,4 +314,43 @@ func ExploreSchedules(bound int, maxExec int, run func(prefix []int) *Sched, che
 	}
 	rec(nil)
 	return execs, capped
+}
+
+// ExploreSchedulesPruned explores ALL schedules (no preemption bound) with
+// global-state-key pruning: a decision point whose state key (shared world +
+// every thread's position and answer history) was reached before is not
+// branched from again - the execution that first reached it explores every
+// alternative from there. Sound as long as a thread's behaviour is a function
+// of the answers it has received (which Note records) and the shared world.
+func ExploreSchedulesPruned(maxExec int, run func(prefix []int) *Sched, check func(prefix []int, x *Sched)) (execs, states int, capped bool) {
+	visited := map[string]bool{}
+	var rec func(prefix []int)
+	rec = func(prefix []int) {
+		if capped {
+			return
+		}
+		if maxExec > 0 && execs >= maxExec {
+			capped = true
+			return
+		}
+		x := run(prefix)
+		execs++
+		choices := make([]int, len(x.Points))
+		for i, p := range x.Points {
+			choices[i] = p.Chosen
+		}
+		check(choices, x)
+		for i := len(prefix); i < len(x.Points); i++ {
+			p := x.Points[i]
+			if visited[p.Key] {
+				break // everything from this state on is being / has been explored by its first visitor
+			}
+			visited[p.Key] = true
+			for alt := 1; alt < p.Enabled; alt++ {
+				rec(append(append([]int(nil), choices[:i]...), alt))
+			}
+		}
+	}
+	rec(nil)
+	return execs, len(visited), capped
 }
